@@ -14,10 +14,68 @@ import copy
 import itertools
 import math
 import operator
+import os
 import random as _pyrandom
 import types
 
+import vlib
 from vlib import cz, czl, cnat, cnatl, cbool, copt, clist, cfloat
+
+GEN = os.path.join(vlib.COQ, "Gen", "C02_gen.v")
+GEN_LOOPS = os.path.join(vlib.COQ, "Gen", "C02_gen_loops.v")
+
+
+def regen(repo=None):
+    """Tie (T): regenerate coq/Gen/C02_gen.v from the working tree's deap/algorithms.py (varAnd, varOr).
+    Returns (ok, message, status) -- status: function -> None (translated) | Refuse (placeholder = hand model);
+    ok is False when nothing could be translated."""
+    import c02_py2coq
+    repo = repo or vlib.REPO
+    try:
+        txt, status = c02_py2coq.translate_repo(repo)
+    except Exception as e:  # noqa  (a translator crash is a refusal of everything: fail closed)
+        r = c02_py2coq.Refuse("Module", "translator error %s: %s" % (type(e).__name__, e))
+        status = {f[0]: r for f in c02_py2coq.FUNCS}
+        txt, _ = c02_py2coq.translate_source("\x00")     # all placeholders
+    with vlib.BuildLock():
+        os.makedirs(os.path.dirname(GEN), exist_ok=True)
+        old = open(GEN).read() if os.path.exists(GEN) else None
+        if old != txt:
+            with open(GEN, "w") as f:
+                f.write(txt)
+    done = [k for k, v in status.items() if v is None]
+    refused = ["%s (%s)" % (k, v) for k, v in status.items() if v is not None]
+    msg = "regenerated: %s" % (", ".join(done) or "nothing")
+    if refused:
+        msg += "; translator refused: " + "; ".join(refused)
+    lok, lmsg, lstatus = regen_loops(repo)
+    regen.loops = (lok, lmsg, lstatus)
+    return bool(done), msg + " | loops " + lmsg, status
+
+
+def regen_loops(repo=None):
+    """Tie (T) for the packaged loops: regenerate coq/Gen/C02_gen_loops.v (eaSimple, eaMuPlusLambda, eaMuCommaLambda).
+    Same conventions as regen()."""
+    import c02_py2coq
+    repo = repo or vlib.REPO
+    try:
+        txt, status = c02_py2coq.translate_loops_repo(repo)
+    except Exception as e:  # noqa
+        r = c02_py2coq.Refuse("Module", "translator error %s: %s" % (type(e).__name__, e))
+        status = {f[0]: r for f in c02_py2coq.LOOP_FUNCS}
+        txt, _ = c02_py2coq.translate_loops_source("\x00")
+    with vlib.BuildLock():
+        os.makedirs(os.path.dirname(GEN_LOOPS), exist_ok=True)
+        old = open(GEN_LOOPS).read() if os.path.exists(GEN_LOOPS) else None
+        if old != txt:
+            with open(GEN_LOOPS, "w") as f:
+                f.write(txt)
+    done = [k for k, v in status.items() if v is None]
+    refused = ["%s (%s)" % (k, v) for k, v in status.items() if v is not None]
+    msg = "regenerated: %s" % (", ".join(done) or "nothing")
+    if refused:
+        msg += "; translator refused: " + "; ".join(refused)
+    return bool(done), msg, status
 
 # --------------------------------------------------------------------------- draws
 NEXT_BELOW_ONE = math.nextafter(1.0, 0.0)
@@ -999,7 +1057,7 @@ def build_with_retry(run):
     return False
 
 
-def correspond_with_retry(run, group, terms, cases):
+def correspond_with_retry(run, group, terms, cases, check="check", requires=()):
     """run.correspond, repeated (with smaller shards) when a coqc process died without a verdict -- e.g. killed
     under memory pressure on a loaded machine.  A shard that was evaluated and disagrees is never retried; only
     attempts in which some shard produced no result at all are discarded and redone."""
@@ -1007,7 +1065,8 @@ def correspond_with_retry(run, group, terms, cases):
     import time as _time
     for attempt, shard in enumerate((400, 200, 100)):
         saved = (list(run.disagreements), run.traces, _copy.deepcopy(run.corr_groups))
-        run.correspond(group, "C02", terms, cases, requires=["From Coq Require Import PrimFloat."], shard=shard)
+        run.correspond(group, "C02", terms, cases, check=check,
+                       requires=["From Coq Require Import PrimFloat."] + list(requires), shard=shard)
         errors = [d for d in run.disagreements[len(saved[0]):] if d.get("coq_error") is not None]
         if not errors or attempt == 2:
             return
@@ -1015,6 +1074,265 @@ def correspond_with_retry(run, group, terms, cases):
                          % (attempt + 1, len(errors), (errors[0]["coq_error"].get("log") or "no output")[-200:]))
         run.disagreements[:], run.traces, run.corr_groups = saved[0], saved[1], saved[2]
         _time.sleep(5 * (attempt + 1))
+
+
+# --------------------------------------------------------------------------- tie (T): regenerated definitions
+GEN_REQ = "From DV Require Import Gen.C02_gen."
+
+
+def tie_regenerated(run):
+    """Regenerate coq/Gen/C02_gen.v from the working tree, re-prove `regenerated = hand model` and the C02 theorems on
+    the regenerated definitions (Props/C02_gen.v).  Returns (check function for the correspondence, extra Requires,
+    whether anything was translated)."""
+    ok, msg, status = regen()
+    refused = {k: v for k, v in status.items() if v is not None}
+    done = [k for k, v in status.items() if v is None]
+    run.extra_cov["regenerated_functions"] = done
+    run.extra_cov["translator_refused"] = {k: str(v) for k, v in refused.items()}
+    for k, v in refused.items():
+        run.notes.append("tie: correspondence-only (translator refused %s at line %s in %s: %s)" % (v.node, v.line, k, v.why))
+    if not ok:
+        run.extra_cov["tie"] = "correspondence-only (%s)" % msg
+        return "check", [], False
+    nb, no = len(run.broken), len(run.obligations)
+    gen_ok = False
+    for attempt in range(3):
+        gen_ok = run.build_props(props="Props/C02_gen.v")
+        log = run.broken[-1].get("log", "") if len(run.broken) > nb else ""
+        import re as _re
+        if gen_ok or _re.search(r'File "[^"]+", line \d+', log) or attempt == 2:
+            break
+        del run.broken[nb:]         # the build died without a Coq error location (killed on a loaded machine): again
+        del run.obligations[no:]
+    if gen_ok:
+        run.notes.append("tie: regenerated (%s)" % ", ".join(done))
+        run.extra_cov["tie"] = ("translation (regenerated definitions proved equal to the hand model: %s) + correspondence%s"
+                                % (", ".join(done), "; correspondence-only for " + ", ".join(sorted(refused)) if refused else ""))
+        run.trusted.append("translator harness/c02_py2coq.py and its signature table (source text of varAnd / varOr -> "
+                           "coq/Gen/C02_gen.v) with the statement vocabulary coq/Model/C02_GenRt.v; the regenerated definitions "
+                           "are proved equal to the hand model (Proofs/C02_gen_equiv.v) and evaluated against the "
+                           "implementation on every run")
+        return "check_both", [GEN_REQ], True
+    run.extra_cov["tie"] = "translator succeeded but the regenerated definitions are no longer (provably) the model"
+    try:        # keep the offending text for the replay
+        with open(os.path.join(run.rundir, "C02_gen.v.broken"), "w") as f:
+            f.write(open(GEN).read())
+    except OSError:
+        pass
+    return "check", [], True
+
+
+def build_gen(run, props, extra=()):
+    """run.build_props(props), repeated when the build died without a Coq error location"""
+    import re as _re
+    nb, no = len(run.broken), len(run.obligations)
+    ok = False
+    for attempt in range(3):
+        ok = run.build_props(props=props, extra=extra)
+        log = run.broken[-1].get("log", "") if len(run.broken) > nb else ""
+        if ok or _re.search(r'File "[^"]+", line \d+', log) or attempt == 2:
+            break
+        del run.broken[nb:]
+        del run.obligations[no:]
+    return ok
+
+
+def tie_regenerated_loops(run, base_ok):
+    """The packaged loops eaSimple / eaMuPlusLambda / eaMuCommaLambda, regenerated and proved equal to the composed
+    models of Model/C03_Full.v (Props/C02_gen_loops.v); registered under C02.  Returns True when the regenerated loops
+    can be evaluated against the implementation."""
+    lok, lmsg, lstatus = getattr(regen, "loops", (False, "not run", {}))
+    done = [k for k, v in lstatus.items() if v is None]
+    refused = {k: v for k, v in lstatus.items() if v is not None}
+    run.extra_cov["regenerated_loops"] = done
+    run.extra_cov["translator_refused_loops"] = {k: str(v) for k, v in refused.items()}
+    for k, v in refused.items():
+        run.notes.append("tie (loops): correspondence-only (translator refused %s at line %s in %s: %s)" % (v.node, v.line, k, v.why))
+    if not lok:
+        return False
+    if not base_ok:
+        run.notes.append("tie (loops): not rebuilt, the regenerated varAnd / varOr they call are not (provably) the model")
+        return False
+    if build_gen(run, "Props/C02_gen_loops.v"):
+        run.notes.append("tie (loops): regenerated (%s)" % ", ".join(done))
+        run.extra_cov["tie_loops"] = ("translation (regenerated loops proved equal to full_simple / full_plus / full_comma of "
+                                      "Model/C03_Full.v: %s)" % ", ".join(done))
+        run.trusted.append("loops dialect of harness/c02_py2coq.py (signature table: `population` = the caller's list object, a "
+                           "Statistics object and a HallOfFame given, verbose false, toolbox.map lazy; toolbox.select / evaluate / "
+                           "stats.compile / halloffame.update / logbook.record mapped to the statements of coq/Model/C02_GenLoopsRt.v)")
+        # the runner that replays recorded runs through the regenerated loops depends on the case format of Corr/C03_Full.v
+        # (C03's file): when it does not build, the replay is skipped -- that is not an obligation of this property
+        ok2, out = vlib.make_targets(["Corr/C02_loops.vo"])
+        if not ok2:
+            run.notes.append("loops correspondence skipped: Corr/C02_loops.v does not build against the current Corr/C03_Full.v (%s)"
+                             % out[-300:])
+        return ok2
+    run.extra_cov["tie_loops"] = "translator succeeded but the regenerated loops are no longer (provably) the composed model"
+    run.loops_broken = True
+    try:
+        with open(os.path.join(run.rundir, "C02_gen_loops.v.broken"), "w") as f:
+            f.write(open(GEN_LOOPS).read())
+    except OSError:
+        pass
+    return False
+
+
+def loops_search(run):
+    """After a broken loops obligation: look for a run of eaSimple / eaMuPlusLambda / eaMuCommaLambda on which the
+    implementation violates the statement about the loops (the oracle of harness/c03.py, which is independent of the
+    models), so that the verdict names a failing input."""
+    import random as _r
+    try:
+        import c03
+    except Exception as e:  # noqa
+        run.notes.append("loops search skipped: harness/c03.py cannot be imported (%r)" % (e,))
+        return
+    rng = _r.Random(run.rng.getrandbits(64))
+    found = 0
+    for it in range(run.scale(150, 600)):
+        kind = ("simple", "plus", "comma")[it % 3]
+        try:
+            n, ngen = rng.randint(1, 6), rng.randint(1, 4)
+            cfg = c03.gen_simple(rng, n=n, ngen=ngen) if kind == "simple" else c03.gen_mu(rng, kind, n=n, ngen=ngen)
+            cfg = c03.fix_guards(cfg)
+            cfg["alias"] = []
+            leg, obs = c03.run_impl(cfg)[0]
+            pub = c03.cfg_public(leg)
+            if "skipped" in obs:
+                continue
+            run.note_case(("loops-search", pub), True)
+            if "raised" in obs:
+                run.oracle_violation("the loop raised " + obs["raised"], pub, observed=obs["raised"])
+                found += 1
+            else:
+                bad = c03.oracle(leg, obs, {"shown": set(), "best_seen": []}) if leg.get("stats", True) else c03.oracle_nostats(leg, obs)
+                if bad:
+                    run.oracle_violation("packaged loop: " + bad[0], pub, observed=bad[:5])
+                    found += 1
+        except Exception:  # noqa
+            continue
+        if found >= 5:
+            break
+    run.notes.append("loops search (oracle of harness/c03.py) after a broken loops obligation: %d violation(s)" % found)
+
+
+def search_after_break(run):
+    wide_search(run)
+    if getattr(run, "loops_broken", False) and not run.oracle_viol:
+        loops_search(run)
+
+
+def loops_correspondence(run):
+    """The regenerated loops evaluated against the implementation: recorded runs of the three loops (generators,
+    recording wrappers and term printer of harness/c03.py, which the composed model of C03 uses) are replayed through
+    gen_eaSimple / gen_eaMuPlusLambda / gen_eaMuCommaLambda (Corr/C02_loops.v)."""
+    import random as _r
+    try:
+        import c03
+    except Exception as e:  # noqa
+        run.notes.append("loops correspondence skipped: harness/c03.py cannot be imported (%r)" % (e,))
+        return
+    rng = _r.Random(run.rng.getrandbits(64))
+    terms, cases = [], []
+    want = run.scale(36, 300)
+    tries = 0
+    while len(terms) < want and tries < 5 * want:
+        tries += 1
+        kind = ("simple", "plus", "comma")[tries % 3]
+        try:
+            n, ngen = rng.randint(0, 4), rng.randint(0, 3)
+            cfg = c03.gen_simple(rng, n=n, ngen=ngen) if kind == "simple" else c03.gen_mu(rng, kind, n=n, ngen=ngen)
+            cfg = c03.fix_guards(cfg)
+            cfg["alias"] = []
+            cfg["full"] = True
+            leg, obs = c03.run_impl(cfg)[0]
+            if "skipped" in obs or "raised" in obs or not obs.get("full") or obs["full"]["bad"] \
+                    or not leg.get("stats", True) or not leg.get("hof", True):
+                continue
+            terms.append(c03.coq_term_full(leg, obs))
+            cases.append(c03.cfg_public(leg))
+        except Exception:  # noqa  (a case that cannot be driven is C03's business, not a disagreement here)
+            continue
+    # the loops leaving with an exception: eaMuCommaLambda's own assertion, varOr's guards
+    base = {"evp": [1, 0, 7, False], "weights": [1], "hofsize": 1, "opstyle": "inplace", "sel": "firstk"}
+    for kind, extra, wantx in (
+            ("comma", dict(ngen=1, n=2, genos=[[1], [2]], preeval=[True, False], mu=3, lam=2, cxpb=0.0, mutpb=0.0), "AssertionError"),
+            ("plus", dict(ngen=2, n=1, genos=[[1, 2]], preeval=[True], mu=1, lam=2, cxpb=1.0, mutpb=0.0), "ValueError"),
+            ("comma", dict(ngen=1, n=0, genos=[], preeval=[], mu=0, lam=2, cxpb=0.0, mutpb=0.5), "IndexError")):
+        try:
+            cfg = dict(base, kind=kind, seed=rng.randrange(10 ** 9), full=True, **extra)
+            leg, obs = c03.run_impl(cfg)[0]
+            if obs.get("raised_type") == wantx:
+                terms.append(c03.coq_term_full_raise(leg, obs))
+                cases.append(c03.cfg_public(leg))
+        except Exception:  # noqa
+            continue
+    run.extra_cov["regenerated_loops_cases"] = len(terms)
+    for c in cases:
+        run.note_case(("loops", c), True)
+    if terms:
+        run.correspond("regenerated_loops", "C02_loops", terms, cases, check="check_gen_loops",
+                       requires=["From Coq Require Import PrimFloat."], shard=run.scale(40, 100))
+
+
+def diagnose_regenerated(run, gen_check, reqs, translated, terms, cases, disagreed):
+    """Which of the two -- hand model, regenerated definitions -- disagrees with the implementation?  Notes only:
+    the cases are already counted."""
+    if not translated or not terms:
+        return
+    saved = (list(run.disagreements), run.traces, dict(run.corr_groups))
+    try:
+        if gen_check == "check_both" and disagreed:
+            sub = list(range(min(len(terms), 300)))
+            bad_model = run.correspond("diagnosis_model", "C02", [terms[i] for i in sub], [cases[i] for i in sub],
+                                       requires=["From Coq Require Import PrimFloat."])
+            bad_gen = run.correspond("diagnosis_regenerated", "C02", [terms[i] for i in sub], [cases[i] for i in sub],
+                                     check="check_gen", requires=["From Coq Require Import PrimFloat.", GEN_REQ])
+            run.notes.append("diagnosis: on the first %d cases the hand model disagrees with the implementation on %d, the "
+                             "regenerated definitions on %d" % (len(sub), len(bad_model), len(bad_gen)))
+        elif gen_check == "check":
+            # translated but not provably the model: do the regenerated definitions at least agree with the implementation?
+            rc, out = vlib.coqc_file(GEN, cwd=vlib.COQ)
+            if rc == 0:
+                bad_gen = run.correspond("diagnosis_regenerated", "C02", terms, cases, check="check_gen",
+                                         requires=["From Coq Require Import PrimFloat.", GEN_REQ])
+                g = run.corr_groups.get("diagnosis_regenerated", {})
+                run.notes.append("diagnosis: the regenerated definitions (not provably equal to the model) disagree with the "
+                                 "implementation on %d of %d cases (errors: %s)" % (len(bad_gen), len(terms), g.get("errors")))
+            else:
+                run.notes.append("diagnosis: the regenerated definitions do not compile: " + out[-400:])
+    except Exception as e:  # noqa
+        run.notes.append("diagnosis step failed: %r" % (e,))
+    run.disagreements[:], run.traces, run.corr_groups = saved[0], saved[1], saved[2]
+
+
+def wide_search(run):
+    """Only runs when an obligation or the correspondence broke and the regular cases gave no failing input: an
+    oracle-only sweep over populations / lambda far beyond the regular sizes (a regenerated definition that is no
+    longer the model may differ from it only past a threshold on len(population), the index or lambda_), with all
+    parents evaluated and in-place operators so that a stale fitness, a missing clone or a wrong count shows."""
+    rng = run.rng
+    for rep in range(run.scale(160, 400)):
+        which = "varAnd" if rep % 2 == 0 else "varOr"
+        n = rng.choice([15, 17, 24, 31, 32, 33, 34, 41, 48, 63, 64, 65, 81]) if rep % 3 else rng.randint(15, 96)
+        objs = [([rng.randint(0, 9), rng.randint(0, 9)], i) for i in range(n)]
+        fits = [[rng.randint(0, 5)] for _ in range(n)]
+        pop_idx = list(range(n))
+        if which == "varAnd":
+            cxpb, mutpb = [(1.0, 1.0), (0.0, 1.0), (1.0, 0.0), (0.5, 0.5)][(rep // 2) % 4]
+            lam, ncalls = 0, n // 2 + n + 1
+        else:
+            cxpb, mutpb = [(0.0, 0.0), (0.0, 1.0), (1.0, 0.0), (0.3, 0.3), (0.5, 0.5)][(rep // 2) % 5]
+            lam = rng.choice([n, n + 1, 2 * n, rng.randint(15, 96)])
+            ncalls = lam + 1
+        mks = [("tail", 1)] * ncalls
+        uks = [("inc", 0)] * ncalls
+        instrumented_case(run, which, objs, fits, pop_idx, lam, cxpb, mutpb, mks, uks,
+                          RandomProxy(rng.getrandbits(32)), [], [], cvs=None)
+        if len(run.oracle_viol) >= 5:
+            break
+    run.notes.append("wide search (sizes 15..96) after a broken obligation / disagreement: %d oracle violation(s)"
+                     % len(run.oracle_viol))
 
 
 # --------------------------------------------------------------------------- entry
@@ -1031,7 +1349,8 @@ def main(run):
                 "(objects, population, probabilities, draw log, operator kinds); non-trivial = at least one clone/operator "
                 "call happened or the call raised.")
     run.trusted += ["Coq 8.16.1 kernel and vm_compute",
-                    "hand-written model coq/Model/C02_Variation.v tied by correspondence (harness/c02.py, coq/Corr/C02.v)",
+                    "hand-written model coq/Model/C02_Variation.v tied by correspondence (harness/c02.py, coq/Corr/C02.v) and, "
+                    "when the translator accepts the current source text, by regeneration (see the notes `tie: ...`)",
                     "frame hypothesis built into the model: toolbox.mate/mutate write only to their argument objects and return "
                     "arguments or newly created objects (mate: two different objects)",
                     "copy.deepcopy of an individual yields a new individual and a new fitness object with equal contents (see C16); "
@@ -1045,9 +1364,17 @@ def main(run):
                         "varOr: cxpb + mutpb <= 1; population of at least 2 when a crossover draw occurs and at least 1 "
                         "otherwise (the real code raises ValueError / IndexError there, proved as guards)"]
     build_with_retry(run)
+    gen_check, reqs, translated = tie_regenerated(run)
+    loops_ok = tie_regenerated_loops(run, gen_check == "check_both")
+    run.search_fn = search_after_break
     corpus_runs(run)
     terms, cases = [], []
     instrumented_cases(run, terms, cases)
-    correspond_with_retry(run, "variation", terms, cases)
+    # the hand model and (when they check) the regenerated definitions are evaluated on every case
+    ndis = len(run.disagreements)
+    correspond_with_retry(run, "variation", terms, cases, check=gen_check, requires=reqs)
+    diagnose_regenerated(run, gen_check, reqs, translated, terms, cases, len(run.disagreements) > ndis)
+    if loops_ok:
+        loops_correspondence(run)
     nreal = real_operator_runs(run)
     run.extra_cov["real_operator_runs"] = nreal
